@@ -114,6 +114,12 @@ class ForkServer:
             code = 0
             try:
                 parent_sock.close()
+                # whatever the code under test does to the *real* fds 0/1/2 (os.write(1, ..),
+                # os.read(0, ..)) must not reach this check's own stdin/stdout/stderr
+                devnull = os.open(os.devnull, os.O_RDWR)
+                for fd in (0, 1, 2):
+                    os.dup2(devnull, fd)
+                os.close(devnull)
 
                 def ref(spec):
                     _send(child_sock, ("ref", spec))
